@@ -323,6 +323,14 @@ def scenario(case):
             if h.pdk.default() is not regmod:
                 out["fails"].append(("default_changed_by_failed_compile", "after a failed compile aimed at %s, hdl21.pdk.default() is %r instead of the declared default" % (other, h.pdk.default())))
                 return out
+    if case.get("set_default") and case["how"] in ("name", "module") and len(case["pdks"]) > 1:
+        # ANOTHER registered PDK is the declared default; the compile below names its target, which therefore decides
+        other = [p for p in case["pdks"] if p != target][0]
+        try:
+            h.pdk.set_default(REGNAME[other])
+        except Exception as e:
+            out["fails"].append(("set_default_raises:%s" % type(e).__name__, str(e)[-200:]))
+            return out
     try:
         do_compile()
     except StopIteration as e:
@@ -687,6 +695,8 @@ def record(res, case, v):
         feats.append("compile_source_is_a_list")
     if case.get("set_default") and case["how"] == "default" and len(case["pdks"]) > 1:
         feats.append("explicit_default_among_several_pdks" + ("_after_failed_compile_elsewhere" if case.get("failed_other_first") else ""))
+    if case.get("set_default") and case["how"] in ("name", "module") and len(case["pdks"]) > 1:
+        feats.append("targeted_compile_while_another_pdk_is_default")
     if case.get("twice"):
         feats.append("compile_twice")
     if len(case["pdks"]) > 1:
